@@ -85,14 +85,16 @@ func (t *Timer) arm(d time.Duration) {
 			}
 		})
 	}
-	if t.id < 0 {
+	if t.id < 0 && simrt.Active() {
 		panic("simtime: timer table full")
 	}
+	// (outside a run - world set-up, the checks after a run - nothing advances
+	// the virtual clock: the timer is simply never due)
 	t.seq = simrt.TimerSeq(t.id)
 }
 
 func NewTimer(d time.Duration) *Timer {
-	if !Virtual() || !simrt.Active() {
+	if !Virtual() {
 		rt := time.NewTimer(d)
 		return &Timer{C: rt.C, real: rt, id: -1}
 	}
@@ -103,7 +105,7 @@ func NewTimer(d time.Duration) *Timer {
 }
 
 func AfterFunc(d time.Duration, f func()) *Timer {
-	if !Virtual() || !simrt.Active() {
+	if !Virtual() {
 		return &Timer{real: time.AfterFunc(d, f), id: -1}
 	}
 	t := &Timer{f: f}
@@ -160,7 +162,7 @@ func (t *Ticker) arm(d time.Duration) {
 }
 
 func NewTicker(d time.Duration) *Ticker {
-	if !Virtual() || !simrt.Active() {
+	if !Virtual() {
 		rt := time.NewTicker(d)
 		return &Ticker{C: rt.C, real: rt, id: -1}
 	}
@@ -218,7 +220,7 @@ func (c *deadlineCtx) Err() error {
 }
 
 func WithDeadline(parent context.Context, d time.Time) (context.Context, context.CancelFunc) {
-	if !Virtual() || !simrt.Active() {
+	if !Virtual() {
 		return context.WithDeadline(parent, d)
 	}
 	if cur, ok := parent.Deadline(); ok && cur.Before(d) {
@@ -240,7 +242,7 @@ func WithDeadline(parent context.Context, d time.Time) (context.Context, context
 }
 
 func WithTimeout(parent context.Context, d time.Duration) (context.Context, context.CancelFunc) {
-	if !Virtual() || !simrt.Active() {
+	if !Virtual() {
 		return context.WithTimeout(parent, d)
 	}
 	return WithDeadline(parent, Now().Add(d))
